@@ -68,6 +68,13 @@ CLAIMED.update({
    tech="TLA+ spec evaluated exhaustively by TLC to produce expected values + vector replay into the real code"),
 })
 
+CLAIMED["C11"] = dict(cat="model_checking", ref="DESIGN.md 6 C11",
+   text="KeyCodec.tla specifies the documented key layout and the list/release API entry; TLC enumerates every pod of a bounded universe of DNS-1123 names x owner kinds x pools x namespaces, checks the paging law on the "
+        "specification and emits the expected key / decoded fields / API entry per pod; every pod is checked against the real FormatKey/ParseKey (all real keys pairwise distinct), a sample through the real HTTP handlers: "
+        "the listed entry posted back verbatim (and with appType omitted for statefulsets) must release exactly that IP and leave another owner's IP alone; paging with every size shows every IP once.",
+   note="Bounded exhaustive over names of length <= 2 (quick) / 3 (thorough); names containing '_' are outside DNS-1123 and not generated.",
+   tech="TLA+ spec evaluated exhaustively by TLC to produce expected values + vector replay into the real codec and HTTP handlers")
+
 NA = {
  "C19": "data races are below the granularity of an action-level TLA+ specification; deciding them needs a race detector / lock-set analysis, i.e. another technique (DESIGN.md section 1)",
 }
